@@ -1319,6 +1319,39 @@ class Check(PropertyCheck):
                                              {"kind": "program", "spec": repr(c["spec"]), "caches": [True, True], "context": None,
                                               "proc": False, "check": "cache"}))
         self.stat("oracle", "root task cache decisions inspected", nrec)
+        # Confirmation: several schedulers share one sqlite file in these programs, and the registered insert race / lock
+        # time-outs can surface in shapes the per-attempt classification does not recognise (caught and recovered inside
+        # the program, seen in a child interpreter, ...).  A difference is reported only if it REPRODUCES when the
+        # program / history is run again on fresh backends (a deterministic defect always does); what does not reproduce
+        # is counted in the evidence and added to the time-dependent class instead of being dropped silently.
+        import contextlib
+        import io
+        confirmed, unrepro = [], []
+        for f in self.findings:
+            kind = (f.replay or {}).get("kind")
+            if f.key == KEY_RACE or kind not in ("program", "witness", "history") or len(confirmed) >= 12:
+                confirmed.append(f)
+                continue
+            buf = io.StringIO()
+            keep_infra = list(getattr(self, "infra", []))
+            try:
+                with contextlib.redirect_stdout(buf):
+                    rc = self.replay({"replay": f.replay})
+                self.infra = keep_infra
+            except Exception as e:  # noqa: BLE001
+                rc, _ = 1, buf.write(f"replay raised {type(e).__name__}: {e}")
+            if rc:
+                confirmed.append(f)
+            else:
+                unrepro.append((f, buf.getvalue().strip().splitlines()[-1:] or [""]))
+        self.stat("oracle", "differences that did not reproduce on a re-run (time-dependent)", len(unrepro))
+        self.findings = confirmed
+        if unrepro and not any(f.key == KEY_RACE for f in self.findings):
+            f0, tail = unrepro[0]
+            self.findings.append(Finding(KEY_RACE, f"a difference was observed once and did not reproduce on fresh backends ({f0.key:.120}: "
+                                                   f"{f0.what:.200}; re-run: {tail[0]:.120}) -- the time-dependent class of the shared sqlite backend",
+                                         {"kind": "race", "spec": (f0.replay or {}).get("spec"), "unreproduced": f0.key}))
+        nb = len([f for f in self.findings if f.key != KEY_RACE])
         self.stat("oracle", "violations", nb)
         self.ob("oracle", f"implementation oracle ran ({len(getattr(self, 'runs', []))} programs, {nrec} cache decisions for _subrun_root_task jobs)",
                 bool(getattr(self, "runs", [])) and nrec > 0, "no program was run")
